@@ -15,7 +15,7 @@ from ..handlers import FnRef, closure, concrete_handlers, parent_map, stores
 from ..protocol import HandlerProtocol, _is_copy_of
 from ..pyfront import ClassInfo, Program, body_without_docstring, dotted, param_names, self_attr
 from ..guards import atoms, path_conditions
-from ..normalize import canon
+from ..normalize import canon, flat
 from ..resolve import split_atom
 from ..selftest import Edit
 from ..writers import all_field_writes, taint_from_params
@@ -33,6 +33,28 @@ def _unit_ctor_args(call: ast.Call, unit_params: List[str]) -> Dict[str, ast.AST
         if k.arg:
             out[k.arg] = k.value
     return out
+
+
+def _full_traversal(prog: Program, cls: ClassInfo, it: ast.AST, params: List[str]) -> bool:
+    """`it` is g(<parameter>) for a generator g that yields every node of its argument and, recursively, of the node's children"""
+    if not (isinstance(it, ast.Call) and len(it.args) == 1 and norm(it.args[0]) in params):
+        return False
+    if norm(it.func) == "__subtree_nodes__":
+        return True   # normal form of a work-list traversal over all nodes below the parameter
+    name = it.func.id if isinstance(it.func, ast.Name) else (it.func.attr if isinstance(it.func, ast.Attribute) else None)
+    g = cls.module.functions.get(name) if isinstance(it.func, ast.Name) else cls.methods.get(name) if name else None
+    if g is None:
+        return False
+    ps = [a.arg for a in g.args.args if a.arg not in ("self", "cls")]
+    loops = [n for n in body_without_docstring(g) if isinstance(n, ast.For)]
+    if len(ps) != 1 or len(loops) != 1 or norm(loops[0].iter) != ps[0] or not isinstance(loops[0].target, ast.Name):
+        return False
+    v = loops[0].target.id
+    ys = [n for n in ast.walk(loops[0]) if isinstance(n, ast.Yield) and n.value is not None and norm(n.value) == v]
+    rec = [n for n in ast.walk(loops[0]) if isinstance(n, ast.YieldFrom) and isinstance(n.value, ast.Call) and len(n.value.args) == 1
+           and norm(n.value.args[0]) == f"{v}.children" and norm(n.value.func).split(".")[-1] == name]
+    conditional = any(isinstance(n, (ast.If, ast.Break, ast.Continue, ast.Return)) for n in ast.walk(loops[0]))
+    return len(ys) == 1 and len(rec) == 1 and not conditional
 
 
 def check_extraction_copies(prog: Program, rep: Report):
@@ -92,11 +114,18 @@ def analyse(src: Source) -> List[Report]:
     file = sh.file
     entries = check_extraction_copies(prog, rep)
     efg = entries[0].fn
-    prefix_loops = [n for n in efg.body if isinstance(n, ast.For) and isinstance(n.iter, ast.Call)
-                    and norm(n.iter.func) == "range" and "len(identifier)" in norm(n.iter)]
-    rep.ob("R13.1-ancestors", len(prefix_loops) == 1 and norm(prefix_loops[0].iter.args[0]) in ("1",) if prefix_loops else False,
+    def over_levels(it: ast.AST) -> bool:
+        """the loop visits every level 1 .. len(identifier) - 1: range(1, len(identifier)), identifier[1:], enumerate(identifier[1:], ..)"""
+        if isinstance(it, ast.Call) and norm(it.func) == "enumerate" and it.args:
+            return over_levels(it.args[0])
+        if isinstance(it, ast.Call) and norm(it.func) == "range" and len(it.args) == 2:
+            return norm(it.args[0]) == "1" and norm(it.args[1]) == "len(identifier)"
+        return isinstance(it, ast.Subscript) and norm(it.value) == "identifier" and isinstance(it.slice, ast.Slice) \
+            and it.slice.lower is not None and norm(it.slice.lower) == "1" and it.slice.upper is None and it.slice.step is None
+    prefix_loops = [n for n in flat(efg.body) if isinstance(n, ast.For) and over_levels(n.iter)]
+    rep.ob("R13.1-ancestors", len(prefix_loops) == 1,
            Loc(file, efg.lineno, entries[0].qual), "prefix loop over identifier levels",
-           "the branch must contain every ancestor level of the identifier (loop over range(1, len(identifier)))")
+           "the branch must contain every ancestor level of the identifier (loop over the levels 1 .. len(identifier) - 1)")
     child_loops = [n for n in efg.body if isinstance(n, ast.For) and ".children" in norm(n.iter)]
     rec_ok = False
     helper_name = None
@@ -270,8 +299,8 @@ def analyse(src: Source) -> List[Report]:
             "position written": f"_physical_state.set(" in txt and f"{var}.value.position" in txt,
             "velocity written": f"{var}.value.velocity" in txt and "_lifting_state.set(" in txt,
             "time stamp written": f"{var}.value.time_stamp" in txt,
-            "children inserted": f"insert_into_global_state({var}.children)" in txt,
-            "iterates the whole out-state": norm(lp.iter) in param_names(ins),
+            "children inserted": f"insert_into_global_state({var}.children)" in txt or _full_traversal(prog, sh, lp.iter, param_names(ins)),
+            "iterates the whole out-state": norm(lp.iter) in param_names(ins) or _full_traversal(prog, sh, lp.iter, param_names(ins)),
             "keyed by the cnode's identifier": f"{var}.value.identifier" in txt,
         }
         for what, good in conds.items():
@@ -311,7 +340,7 @@ def analyse(src: Source) -> List[Report]:
     rep.expect_min("R13.1-copied-field", 3)
     rep.expect_min("R13.2-read-only-consumer", 6)
     rep.expect_min("R13.3-set-callers", 2)
-    rep.expect_min("R13.3-insert-callers", 3)
+    rep.expect_min("R13.3-insert-callers", 2)
     rep.expect_min("R13.3-global-position-writer", 1)
     rep.expect_min("R13.3-lifting-store-writer", 3)
     rep.expect_min("R13.4-insert-complete", 6)
